@@ -45,6 +45,27 @@ with concurrent.futures.ThreadPoolExecutor(max_workers=8) as ex:
 # (STORE forms, SUNION/SINTER/SDIFF, multi-key DEL/EXISTS/MGET) must complete (no deadlock, no leaked stripe)
 sr = sched.run("multi", tier, seed, maxpre=2, maxpre3=1 if tier == "quick" else 2)
 sched.decide(sr, v, "C13", cov)
+# sequential all-or-nothing of the multi-key commands (a command that fails - wrong-typed, missing or expired operand - changes
+# nothing; one that succeeds changes every key it names): the branch labels of the multi-key commands in the bounded models of
+# C01 / C09 / C11, each label replayed from several model states on the real code with comparison of the stored state
+MULTI_LABELS = ("mset", "rename", "lmove", "smove", "sunionstore", "sinterstore", "sdiffstore", "del", "exists", "mget")
+
+
+def seq_tables(job):
+    module, cfg = job
+    return job, ks.run_b1(module, cfg, workers=4, tour_args=["-sample", "12" if tier == "quick" else "200"])
+
+
+cov["sequential_all_or_nothing"] = {}
+with concurrent.futures.ThreadPoolExecutor(max_workers=3) as ex:
+    for (module, cfg), r in ex.map(seq_tables, [("MC_String", "MC_String.cfg"), ("MC_List", "MC_List.cfg"), ("MC_Set", "MC_Set.cfg")]):
+        mine = [f for f in r["failures"] if f["branch"].split(".")[0] in MULTI_LABELS]
+        cov["sequential_all_or_nothing"][cfg] = {"edges_tested": r["summary"]["edges_tested"], "multi_key_failures": len(mine)}
+        cov["states"] += r["tlc"]["distinct"]
+        cov["transitions"] += r["tlc"]["generated"]
+        for f in mine:
+            v.report(ks.b1_signature(f), {"instance": cfg, "path": f.get("path"), "cmd": f["cmd"], "got": f["got"], "expected": f["expected"], "state_diff": f.get("state_diff")},
+                     what="%s: after %s, %s -> %s %s" % (cfg, f.get("path"), f["cmd"], ks.show_reply(f["got"]), f.get("state_diff") or ""))
 try:
     import locks
     locks.run(v, cov, tier, seed)
